@@ -249,7 +249,7 @@ def generic_replay(contract):
         fn = real_function(contract.target)
         shown = {k: repr(v)[:300] for k, v in args.items()}
         try:
-            result = fn(**args)
+            result = fn(**(contract.adapt(args) if contract.adapt else args))
             raised = None
         except Exception as e:          # noqa: BLE001
             result, raised = None, type(e).__name__
